@@ -80,6 +80,8 @@ type ModSpec struct {
 	Start   *StartSpec       `json:"start,omitempty"`
 	// Bare: no leaf/accessor functions at all (matrix importers).
 	Bare bool `json:"bare,omitempty"`
+	// Tail: the module also gets the tail-call forms of every cross-instance call path (needs the tail-call feature).
+	Tail bool `json:"tail,omitempty"`
 }
 
 // Sem names what a function does; the model interprets it (model.go), the
@@ -108,6 +110,7 @@ type Layout struct {
 	HasMem   bool
 	MemImp   bool
 	Gacc     int // global used by leaf1, -1 if none
+	FT0      int // first funcref table (target of g2t, L4, call-then-read), -1 if none
 	PassElem int // element segment index of the passive segment, -1
 	PassData int // data segment index of the passive segment, -1
 	StartFn  int
@@ -125,7 +128,7 @@ func leafConst(id, k int) int32 { return int32((id+1)*100000 + k*1000) }
 
 // BuildLayout computes the index spaces and the function list of spec.
 func BuildLayout(spec *ModSpec) *Layout {
-	l := &Layout{Gacc: -1, PassElem: -1, PassData: -1, StartFn: -1, ByName: map[string]int{}}
+	l := &Layout{Gacc: -1, FT0: -1, PassElem: -1, PassData: -1, StartFn: -1, ByName: map[string]int{}}
 	nfi := 0
 	for _, im := range spec.Imports {
 		switch im.Ext.Kind {
@@ -170,8 +173,14 @@ func BuildLayout(spec *ModSpec) *Layout {
 	add("L1", tI32, tI32, "leaf1", 0, 0)
 	add("L2", tI32, tI32, "leaf2", 0, 0)
 	add("L3", nil, tI64, "leaf3", 0, 0)
+	nLeaves := 4
+	if spec.Tail {
+		// L4(x): x == 0 ? C4 : return_call_indirect table[x & 0xff](x >> 8)   (a hop; chains across instances)
+		add("L4", tI32, tI32, "leaf4", 0, 0)
+		nLeaves = 5
+	}
 	// refable: leaves + imported functions
-	for k := 0; k < 4; k++ {
+	for k := 0; k < nLeaves; k++ {
 		l.Refable = append(l.Refable, l.NImpF+k)
 	}
 	// (host functions that look at "the calling module" are not put into tables: which module that is when
@@ -194,6 +203,7 @@ func BuildLayout(spec *ModSpec) *Layout {
 			break
 		}
 	}
+	l.FT0 = ft0
 	for i, g := range l.Globals {
 		t := []wenc.ValType{g.Type}
 		if g.Type == wenc.FuncRef {
@@ -248,6 +258,9 @@ func BuildLayout(spec *ModSpec) *Layout {
 			add("tset"+s, []wenc.ValType{wenc.I32, wenc.I32}, nil, "tset", ti, 0)
 			add("tcall"+s, []wenc.ValType{wenc.I32, wenc.I32}, tI32, "tcall", ti, 0)
 			add("tisnull"+s, tI32, tI32, "tisnull", ti, 0)
+			if spec.Tail {
+				add("rtcall"+s, []wenc.ValType{wenc.I32, wenc.I32}, tI32, "rtcall", ti, 0)
+			}
 			add("tfill"+s, []wenc.ValType{wenc.I32, wenc.I32, wenc.I32}, nil, "tfill", ti, 0)
 			add("tcopy"+s, []wenc.ValType{wenc.I32, wenc.I32, wenc.I32}, nil, "tcopy", ti, 0)
 			if l.PassElem >= 0 && spec.Elems[l.PassElem].Table == ti {
@@ -263,6 +276,9 @@ func BuildLayout(spec *ModSpec) *Layout {
 	for j := 0; j < l.NImpF; j++ {
 		t := l.Funcs[j].Type
 		add(fmt.Sprintf("ci%d", j), t.Params, t.Results, "ci", j, 0)
+		if spec.Tail {
+			add(fmt.Sprintf("rci%d", j), t.Params, t.Results, "rci", j, 0)
+		}
 	}
 	// call-then-read wrappers: the imported function may grow / write the shared object, and the caller looks at
 	// it again IN THE SAME FUNCTION (whatever the caller's code cached across the call must have been refreshed)
@@ -400,6 +416,14 @@ func Build(spec *ModSpec) ([]byte, *Layout) {
 			}
 		case "leaf3":
 			c.I64Const(int64(leafConst(spec.ID, 3)))
+		case "leaf4":
+			if l.FT0 >= 0 {
+				c.LocalGet(0).Op(0x45).If(wenc.I32).I32Const(leafConst(spec.ID, 4)).Else()
+				c.LocalGet(0).I32Const(8).Op(0x76).LocalGet(0).I32Const(255).Op(0x71).ReturnCallIndirect(callT, uint32(l.FT0))
+				c.End()
+			} else {
+				c.LocalGet(0).I32Const(leafConst(spec.ID, 4)).Op(0x6a)
+			}
 		case "gget":
 			c.GlobalGet(A)
 		case "gset":
@@ -446,6 +470,13 @@ func Build(spec *ModSpec) ([]byte, *Layout) {
 			c.LocalGet(1).LocalGet(0).CallIndirect(callT, A)
 		case "tisnull":
 			c.LocalGet(0).TableGet(A).RefIsNull()
+		case "rtcall":
+			c.LocalGet(1).LocalGet(0).ReturnCallIndirect(callT, A)
+		case "rci":
+			for p := range f.Type.Params {
+				c.LocalGet(uint32(p))
+			}
+			c.ReturnCall(A)
 		case "tfill":
 			c.LocalGet(0)
 			refSelect(c, 1, l.Refable)
